@@ -101,3 +101,76 @@ def new_world(strategies=None, **kw):
 def finish(w):
     simrun.detach()
     w.close()
+
+
+def accounts_run(seed, idx):
+    """Two or three Betfair accounts in one live framework, orders of one or two strategies spread over them, then cancels / replaces /
+    updates.  Returns what the OUTSIDE saw per account next to what the framework's own records say:
+      wrong_account: requests that reached the exchange through an account other than the one the order belongs to,
+      per_order: [(order, client username, account holding its bet)], views: {username: (bet ids in blotter.client_orders, bet ids the
+      exchange holds for that account)}, n_calls."""
+    from . import simgen
+
+    rng = simgen.mk_rng(seed, idx, 4242)
+    nc = rng.choice((2, 2, 3))
+    sts = [make_strategy("Q%d" % i) for i in range(rng.choice((1, 2)))]
+    tr, w = new_world(sts, n_clients=nc, usernames=["acct%d" % i for i in range(nc)])
+    res = {"wrong_account": [], "per_order": [], "views": {}, "n_calls": 0, "n_clients": nc}
+    try:
+        mid = w.add_market_file(static_market())
+        w.next_book(mid)
+        m = w.market(mid)
+        ex = w.exchange
+        orders = []
+        # the first request of each kind is not always made by the same account
+        for k in range(rng.randint(3, 7)):
+            c = w.clients[rng.randrange(nc)] if k else w.clients[rng.randrange(nc)]
+            st = rng.choice(sts)
+            o = make_order(st, mid, sel=rng.choice((701, 702, 703)), side=rng.choice(("BACK", "LAY")), price=rng.choice((2.0, 3.0, 4.0)), size=rng.choice((2.0, 5.0)), persistence="PERSIST")
+            if rng.random() < 0.3:
+                with m.transaction(client=c) as t:
+                    t.place_order(o)
+                    o2 = make_order(st, mid, sel=701, side="BACK", price=5.0, size=2.0)
+                    t.place_order(o2)
+                    orders.append((o2, c))
+            else:
+                m.place_order(o, client=c)
+            orders.append((o, c))
+            if rng.random() < 0.6:
+                w.executor.run_all()
+        w.executor.run_all()
+        w.snapshot()
+        for o, c in orders:
+            if o.bet_id and o.status is not None and o.status.name == "EXECUTABLE" and rng.random() < 0.6:
+                k = rng.random()
+                try:
+                    if k < 0.4:
+                        m.cancel_order(o, size_reduction=rng.choice((None, 1.0)))
+                    elif k < 0.7:
+                        m.replace_order(o, new_price=o.order_type.price + 1.0)
+                    else:
+                        m.update_order(o, new_persistence_type="LAPSE")
+                except Exception:  # noqa: BLE001
+                    pass
+                if rng.random() < 0.5:
+                    w.executor.run_all()
+        w.executor.run_all()
+        w.snapshot()
+        res["n_calls"] = len(ex.calls)
+        res["wrong_account"] = list(ex.account_errors)
+        by_ref = {}
+        for b in ex.bets.values():
+            by_ref.setdefault(b["customerOrderRef"], []).append(b)
+        for o in m.blotter:
+            for b in by_ref.get(o.customer_order_ref, []):
+                if str(o.bet_id) == b["betId"]:
+                    res["per_order"].append((tr.okey(o), o.client.betting_client.username, b.get("account")))
+                    if b.get("account") != o.client.betting_client.username:
+                        res["wrong_account"].append({"call": "place_orders", "through": b.get("account"), "bet": b["betId"], "bet_account": o.client.betting_client.username})
+        for c in w.clients:
+            mine = sorted(str(o.bet_id) for o in m.blotter.client_orders(c) if o.bet_id)
+            held = sorted(b["betId"] for b in ex.bets.values() if b.get("account") == c.betting_client.username)
+            res["views"][c.betting_client.username] = (mine, held)
+    finally:
+        finish(w)
+    return res
